@@ -265,7 +265,7 @@ def _c10(tier, seed):
         runs += ["H_C10_order(4,0)", "H_C10_order(4,1000)", "H_C10_order(3,4)"]
     return [
         dict(name="msgid", pkg="internal/utils", harness=["harness/utils/c10.go"], runs=["H_C10_msgid()"], solver="z3", validate_runs=["H_C10_msgid()"], veclen=50),
-        dict(name="stream", pkg=".", harness=NET_HARNESS + ["harness/root/c10.go"], runs=runs, solver="z3", walllimit=600, timeout=3000, replay="schedule",
+        dict(name="stream", pkg=".", harness=NET_HARNESS + ["harness/root/c10.go", "harness/root/c10r.go"], runs=runs + ["H_C10_reconnect()"], crash_tags=["process-survives"], solver="z3", walllimit=600, timeout=3000, replay="schedule",
              validate_runs=["H_C10_seqno()", "H_C10_acks(0)", "H_C10_acks(1)", "H_C10_order(2,1000)"], veclen=100),
     ]
 
